@@ -670,8 +670,9 @@ func (r *ringDescriber) getClusterPeerInfo(localHost *HostInfo) ([]*HostInfo, er
 
 // Return true if the host is a valid peer
 func isValidPeer(host *HostInfo) bool {
+	// a null host_id column is read as the zero UUID, not as ""
 	return !(len(host.RPCAddress()) == 0 ||
-		host.hostId == "" ||
+		host.hostId == "" || host.hostId == (UUID{}).String() ||
 		host.dataCenter == "" ||
 		host.rack == "" ||
 		len(host.tokens) == 0)
